@@ -138,10 +138,27 @@ def stores(fn):
     return out
 
 
+def _fully_inlined(fs, f):
+    """no call to f is left anywhere in the (normalised) program."""
+    c = getattr(fs, '_left_calls', None)
+    if c is None:
+        c = set()
+        for g in fs.defined():
+            if g.body is None:
+                continue
+            for n in g.nodes():
+                if n.get('callee'):
+                    c.add(n['callee'])
+        fs._left_calls = c
+    return f.id not in c
+
+
 def field_writers(fs, field):
     """{function id: [Store]} for every function that mutates member `field` (qualified name)."""
     out = {}
     for f in fs.defined():
+        if f.d.get('_new_helper') and _fully_inlined(fs, f):
+            continue        # a helper unknown to the reviewed inventory whose every call was inlined: its stores are the stores of its callers
         for s in stores(f):
             if field in s.fields:
                 out.setdefault(f.id, []).append(s)
